@@ -308,7 +308,36 @@ func genScenario(c *rig.Ctx, i int) Case {
 	errReply := func() Op {
 		return fresh(Op{Op: "setlimit", Err: rig.Pick(g.c.Rng, []string{"timeout", "limiter server unavailable"}), Accept: g.n(2) == 0, Limit: g.limit()})
 	}
-	switch g.n(12) {
+	switch g.n(14) {
+	case 12, 13: // the limiter mode is switched away and back while the server is not ready (the reconcile loop's SECOND start),
+		// then the limits change: the restarted loop must still apply them
+		strat := rig.Pick(g.c.Rng, []string{"globalCount", "globalAllocate", "globalAllocate"})
+		grant := func() {
+			if strat == "globalCount" {
+				ops = append(ops, Op{Op: "reconcile"})
+				maybe(80, func() {
+					ops = append(ops, fresh(Op{Op: "setlimit", Accept: true, Limit: rig.Pick(g.c.Rng, []int64{maxI32, 100000, g.limit()})}))
+				})
+			} else {
+				it := g.item()
+				it.Strategy = strat
+				ops = append(ops, Op{Op: "answer", Named: true, Item: it})
+			}
+		}
+		maybe(30, func() { ops = append(ops, Op{Op: "restart"}) }) // before anything is known: not ready
+		ops = append(ops, sch(strat))
+		ready()
+		maybe(80, grant)
+		for k := 0; k < 1+g.n(2); k++ {
+			ops = append(ops, Op{Op: "shards", N: 0}, Op{Op: "restart"})
+			maybe(30, func() { ops = append(ops, Op{Op: "restart"}) })
+			ops = append(ops, Op{Op: "shards", N: cs.Shards})
+			for j := 0; j < 1+g.n(3); j++ {
+				ops = append(ops, sch(strat)) // new limits, often a lowered global one
+				grant()
+				maybe(40, func() { ops = append(ops, errReply()) })
+			}
+		}
 	case 9: // the global strategy is switched off and on again before the goroutines of the stopped wrapper get to run
 		cs.LateStops = true
 		g.kindMI = true
@@ -655,6 +684,9 @@ func genCase(c *rig.Ctx, i int) Case {
 		default:
 			if g.n(2) == 0 {
 				ops = append(ops, Op{Op: "shards", N: 0})
+				if g.n(3) == 0 { // the mode is switched away and back while the shard count is unknown
+					ops = append(ops, Op{Op: "restart"})
+				}
 			} else {
 				ops = append(ops, Op{Op: "shards", N: cs.Shards})
 			}
